@@ -241,6 +241,23 @@ def check(ctx, replay=None):
         ctx.broke("correspondence host model vs implementation (%d differing scenarios)" % len(diffs),
                   "first differing scenario #%s\nimpl : %s\nmodel: %s\n%s" % (k, (a or "")[:400], (b or "")[:400],
                                                                              blocks[int(k)] if k.isdigit() and int(k) < len(blocks) else ""))
+    if pid == "C02" and diffs:
+        # the library's own guard ("Mortality[i] is higher than current number of infected hosts",
+        # runtime_error thrown after the cohort and the died raster were already changed) fired in a
+        # scenario where the model - same inputs, rates within [0, 1] - lets no cohort lose more than
+        # it holds: hosts dying in a step exceeded the infected present
+        mtrace = parse_trace(model_p)
+        for k in sorted(trace):
+            e, mt_ = trace[k]["err"], mtrace.get(k)
+            if not (e and isinstance(e[0], int) and e[1] == "runtime_error" and mt_ is not None and mt_["err"] != e):
+                continue
+            got = [s_[1] for s_ in trace[k]["snaps"] if s_[0] == e[0]]
+            exp = [s_[1] for s_ in mt_["snaps"] if s_[0] == e[0]]
+            if len(exp) > len(got) and exp[:len(got)] == got and exp[len(got)] == "mortality" and k < len(blocks):
+                ctx.violation("C02.mortality_exceeds_infected",
+                              "step %d: the mortality action was stopped by the library's guard (runtime_error: deaths of a cohort above the "
+                              "infected present) although every configured mortality rate is within [0, 1]" % e[0], blocks[k])
+                break
     stats = mon.run_monitor(pid, ctx, blocks, trace)
     if pid == "C12":
         stats["weather_from_distribution"] = weather_part(ctx, replay)
